@@ -58,6 +58,13 @@ impl C06 {
                 self.rep.count("apply_block panicked (left to C09)");
             }
             Ok(Ok(h)) => {
+                let tx_must_reject = what.starts_with("transaction-");
+                if tx_must_reject {
+                    // likewise: adding, removing or changing a transaction (any field, signatures included)
+                    // always changes what a correct implementation commits to in transactions_hash
+                    self.rep.violate(&format!("C06|accepts-changed-transaction-set|apply_block|{}", what), format!("a block whose transaction set was altered ({}) was accepted", what), wit);
+                    return;
+                }
                 let action_must_reject = what == "action-changed:destination" || what == "action-added" || what == "action-dropped";
                 if action_must_reject {
                     // the statement says outright that changing the proposer action makes the block rejected; a
